@@ -185,6 +185,11 @@ func (g *vfGen) genDets() {
 					seeds = append(seeds, append(append([]byte("<x>"), bytes.Repeat([]byte("y"), pad)...), la...))
 				}
 			}
+			// quick tier: a seeded sample of the placements (every one of them in the thorough tier)
+			if !g.thorough && len(seeds) > 60 {
+				g.rng.Shuffle(len(seeds), func(a, b int) { seeds[a], seeds[b] = seeds[b], seeds[a] })
+				seeds = seeds[:60]
+			}
 		}
 		// compound files carrying each 16-byte literal of the check as the root CLSID (v3 and v4 sectors)
 		for _, lh := range fx.Signatures[name] {
